@@ -15,15 +15,20 @@ THEOREMS = [
     "Mpir.Radix.bc_set_str_val",
     "Mpir.Radix.set_str_pow2_val",
     "Mpir.Radix.mpz_set_str_eq_parse",
+    "Mpir.Radix.mpz_get_str_spec",
     "Mpir.Radix.roundtrip",
     "Mpir.Radix.sizeinbase_pow2_exact",
+    "Mpir.Radix.sizeinbase_table_ok",
     "Mpir.Radix.sizeinbase_bound_partial",
+    "Mpir.Radix.get_str_fits_partial",
 ]
 TRUSTED = ["tools/gen_bases.py (regex translator of mp_bases.c / mp_dv_tab.c / MP_BASES_*_10; decimal->binary64 by Python float())",
            "hand-written models lean/Mpir/Model/Radix.lean tied by correspondence; mpn_dc_get_str / mpn_dc_set_str taken at specification level",
            "mpn_divrem_1 / preinv_divrem_1 and umul_ppmm by their arithmetic meaning; binary64 multiply as exact product + round-to-nearest-even"]
 ASSUMPTIONS = ["C locale isspace; x86-64 SSE2 binary64 arithmetic (no excess precision) for MPN_SIZEINBASE",
-               "sizeinbase for non-powers of two is proved only up to the bit-length bound stated in sizeinbase_bound_partial"]
+               "sizeinbase for non-powers of two (exact or one too large, hence the get_str buffer bound) is proved for operands below 2^(2^24) only (sizeinbase_bound_partial); beyond that it rests on the correspondence at the critical operands b^n",
+               "mpn_dc_get_str / mpn_dc_set_str (>= GET_STR_PRECOMPUTE_THRESHOLD limbs / SET_STR_PRECOMPUTE_THRESHOLD digits) are compared with the specification, not modelled",
+               "mpz_set_str with base 1 (undocumented) is outside mpz_set_str_eq_parse"]
 RULE = ("all bases 2..62 and -2..-36 on every run; values b^k-1,b^k,b^k+1 for k around every chars_per_limb multiple, big_base^j±1, "
         "operand sizes ±2 limbs / digits around GET_STR_DC, GET_STR_PRECOMPUTE, SET_STR_DC, SET_STR_PRECOMPUTE thresholds (read from the build's "
         "gmp-mparam.h), random and long 0/1-run operands; strings: maximal digits, leading zeros, all C white-space characters in "
@@ -279,6 +284,8 @@ def gen_ops(rng, tier, ctx=None):
             yield "mpz_set_str %s %s" % (hx(b), sbytes(bytes([c])))
             yield "mpz_set_str %s %s" % (hx(b), sbytes(bytes([49, c])))
             if c % 3 == 0: yield "mpz_inp_str %s %s" % (hx(b), sbytes(bytes([49, c, 49])))
+    # ---- 4b. sizeinbase at the bit lengths where totbits*log_b(2) is closest to an integer
+    yield from sizeinbase_critical(rng, tier)
     # ---- 5. rationals
     for base in list(range(2, 37)) + [-b for b in range(2, 37)]:
         for _ in range(3 if quick else 10):
@@ -291,9 +298,44 @@ def gen_ops(rng, tier, ctx=None):
         yield "mpq_get_str %s -1 1" % hx(base)
         yield "mpq_out_str %s 0 1" % hx(base)
 
+def log_convergents(b, maxq):
+    """convergents n/t of log(2)/log(b): bit lengths t at which t*log_b(2) is close to the integer n, i.e. the
+    operands b^n on which a slightly wrong chars_per_bit_exactly shows first"""
+    from decimal import Decimal, getcontext
+    getcontext().prec = 80
+    y = Decimal(2).ln() / Decimal(b).ln()
+    h0, h1, k0, k1 = 0, 1, 1, 0
+    out = []
+    for _ in range(60):
+        a = int(y); h0, h1 = h1, a * h1 + h0; k0, k1 = k1, a * k1 + k0
+        if k1 > maxq: break
+        out.append((h1, k1))
+        fr = y - a
+        if fr == 0: break
+        y = 1 / fr
+    return out
+
+def sizeinbase_critical(rng, tier):
+    """b^n, b^n - 1 for n the numerators of the convergents of log_b 2 (compact power ops: the operand is built in
+    the harness), all non-power-of-two bases; quick: up to 2^21 bits, thorough: up to 2^27 bits plus the two
+    historical failures"""
+    maxq = (1 << 21) if tier == "quick" else (1 << 27)
+    for b in range(3, 63):
+        if is_pow2(b): continue
+        for n, t in log_convergents(b, maxq):
+            if t < 64: continue
+            for d in (0, -1, 1):
+                yield "mpz_sizeinbase_pow %s %s %s" % (hx(b), hx(n), hx(d))
+            if t <= (1 << 17) or (tier != "quick" and t <= (1 << 22)):
+                yield "mpz_get_str_pow_len %s %s 0" % (hx(b), hx(n))
+                yield "mpz_get_str_pow_len %s %s -1" % (hx(b), hx(n))
+    if tier != "quick":
+        yield "mpz_sizeinbase_pow 13 1598bf0 0"       # 19^22645744: was one too small before the table repair
+
 def nontrivial(line):
     op = line.split(" ", 1)[0]
     if op in ("mpz_get_str", "mpz_set_str", "mpz_init_set_str", "mpz_sizeinbase", "mpn_get_str", "mpn_set_str", "mpn_set_str_raw", "mpz_out_str",
-              "mpz_inp_str", "mpq_set_str", "mpq_get_str", "mpq_out_str", "mpq_inp_str", "mpz_roundtrip", "mpz_io_roundtrip", "mpq_roundtrip"):
+              "mpz_inp_str", "mpq_set_str", "mpq_get_str", "mpq_out_str", "mpq_inp_str", "mpz_roundtrip", "mpz_io_roundtrip", "mpq_roundtrip",
+              "mpz_sizeinbase_pow", "mpz_get_str_pow_len"):
         return line
     return None
